@@ -54,6 +54,9 @@ type rangeIter struct {
 func (ip *Interp) makeRange(v Value) Value {
 	switch x := v.(type) {
 	case *MapObj:
+		if x != nil {
+			ip.accessRead(x, "a map")
+		}
 		return &rangeIter{m: x, visited: map[*mapEntry]bool{}}
 	case *Str:
 		return &rangeIter{s: x}
@@ -226,6 +229,7 @@ func (ip *Interp) callBuiltin(name string, args []Value, cc *ssa.CallCommon) Val
 		switch y := args[1].(type) {
 		case Slice:
 			for i := 0; i < y.len; i++ {
+				ip.cellRead(y.arr.elems[y.off+i])
 				add = append(add, ip.load(y.arr.elems[y.off+i]))
 			}
 		case *Str:
@@ -241,6 +245,7 @@ func (ip *Interp) callBuiltin(name string, args []Value, cc *ssa.CallCommon) Val
 		need := s.len + len(add)
 		if need <= s.cap {
 			for i, v := range add {
+				ip.cellWrite(s.arr.elems[s.off+s.len+i])
 				ip.store(s.arr.elems[s.off+s.len+i], v)
 			}
 			return Slice{arr: s.arr, off: s.off, len: need, cap: s.cap}
@@ -257,6 +262,7 @@ func (ip *Interp) callBuiltin(name string, args []Value, cc *ssa.CallCommon) Val
 		}
 		arr := ip.newArrayCell(elemT, nc)
 		for i := 0; i < s.len; i++ {
+			ip.cellRead(s.arr.elems[s.off+i])
 			ip.store(arr.elems[i], ip.load(s.arr.elems[s.off+i]))
 		}
 		for i, v := range add {
@@ -269,6 +275,7 @@ func (ip *Interp) callBuiltin(name string, args []Value, cc *ssa.CallCommon) Val
 		switch y := args[1].(type) {
 		case Slice:
 			for i := 0; i < y.len; i++ {
+				ip.cellRead(y.arr.elems[y.off+i])
 				src = append(src, ip.load(y.arr.elems[y.off+i]))
 			}
 		case *Str:
@@ -281,11 +288,15 @@ func (ip *Interp) callBuiltin(name string, args []Value, cc *ssa.CallCommon) Val
 			n = len(src)
 		}
 		for i := 0; i < n; i++ {
+			ip.cellWrite(d.arr.elems[d.off+i])
 			ip.store(d.arr.elems[d.off+i], src[i])
 		}
 		return ip.intConst(n, 64)
 	case "delete":
 		m, _ := args[0].(*MapObj)
+		if m != nil {
+			ip.accessWrite(m, "a map")
+		}
 		ip.mapDelete(m, args[1])
 		return nil
 	case "close":
